@@ -103,13 +103,18 @@ class Unwrap(H.RequestAdapter):
         return rv
 
 
-class M(MCallerHttp):
-    _HTTP_PREFIX_MAP = {'ca': '/cmpA', 'cb': ''}
-
+class MA(MCallerHttp):
     @method_http(None, 'ca')
     def call_a(self, **kw):
         return self.get_conn().post("/m/a", **kw)
 
+    @method_http(None, 'ca')
+    def call_same(self, **kw):
+        """both mixins have a method of this name: python runs this one (the first base)"""
+        return self.get_conn().post("/m/s", **kw)
+
+
+class MB(MCallerHttp):
     @method_http(None, 'cb')
     def call_b(self, **kw):
         return self.get_conn().get("m/b", **kw)
@@ -117,6 +122,15 @@ class M(MCallerHttp):
     @method_http
     def call_c(self, **kw):
         return self.get_conn().put("/m/c", **kw)
+
+    @method_http(None, 'cz')
+    def call_same(self, **kw):
+        return self.get_conn().delete("/m/other", **kw)
+
+
+class M(MA, MB):
+    """a method caller composed of two mixins"""
+    _HTTP_PREFIX_MAP = {'ca': '/cmpA', 'cb': '', 'cz': '/cmpZ'}
 
 
 def build(rng, log):
@@ -287,7 +301,8 @@ def _run_history(ctx, rng, case):
         def do(c, lay, tag):
             verb = rng.choice(['get', 'post', 'put', 'delete', 'patch'])
             path = rng.choice(["/p", "p/q", "", "/a b"])
-            params = rng.choice([None, {}, {'a': 1, 'b': 'x y'}, {'q': 'é&='}])
+            params = rng.choice([None, {}, {'a': 1, 'b': 'x y'}, {'q': 'é&='},
+                                 [('tag', 'red'), ('tag', 'blue'), ('page', 1)], (('k', 'v'), ('k', 'v'))])
             data = rng.choice([None, "txt", b"\x00b", {'k': [1, 2]}, [1, "é"], "", 0])
             headers = rng.choice([None, {}, {'X-A': '1'}, {'Content-Type': 'text/x', 'X-B': 'q'}])
             keep = copy.deepcopy((params, data, headers))
@@ -381,6 +396,7 @@ def _run_history(ctx, rng, case):
             for name, suffix, path, method in (("call_a", [[('prefix', '/cmpA')]], "/m/a", "POST"),
                                                ("call_b", [], "m/b", "GET"),
                                                ("call_a", [[('prefix', '/cmpA')]], "/m/a", "POST"),
+                                               ("call_same", [[('prefix', '/cmpA')]], "/m/s", "POST"),
                                                ("call_c", [], "/m/c", "PUT")):
                 del log[:]
                 steps.append([tag, name])
